@@ -130,6 +130,15 @@ def _colour_events(seed, thorough, tid0):
                 ch = Q.split_quat_channels(q)
                 st = Q.stack_quat_channels(*ch)
                 ev.append({"tid": tid, "op": "flag", "clause": "SplitStackInverse", "ok": bool(np.array_equal(st, q)), "kind": kind})
+                # the planes of ONE image re-arranged before stacking (BGR swap, a grey image from one plane, a flip): each
+                # argument is what it is, wherever its memory lives
+                for rname, planes in (("channels-swapped", (ch[0], ch[3], ch[2], ch[1])), ("one-plane-repeated", (ch[0], ch[1], ch[1], ch[1])),
+                                      ("flipped-views", tuple(c_[::-1, ::-1] for c_ in ch)), ("real-plane-last", (ch[1], ch[2], ch[3], ch[0]))):
+                    want_ = [np.array(p_, dtype=np.float64) for p_ in planes]
+                    st2 = Q.stack_quat_channels(*planes)
+                    back2 = Q.split_quat_channels(st2)
+                    ok2 = np.asarray(st2).shape == (H, W, 4) and all(np.array_equal(np.asarray(b_, dtype=np.float64), w_) for b_, w_ in zip(back2, want_))
+                    ev.append({"tid": tid, "op": "flag", "clause": "SplitStackInverse", "ok": bool(ok2), "kind": kind + ":" + rname})
     # split / stack with planes of MIXED dtypes (integer real plane, float colour planes ...): values must survive
     for (H, W) in sizes[:4]:
         col = [rng.integers(0, 65, (H, W)) / 64.0 for _ in range(3)]
